@@ -309,6 +309,16 @@ let gfun (x : sx) : z option -> z =
 let rec spval (p : pval) : sx = match p with PV v -> soz v | PT l -> L (A "t" :: List.map spval l)
 let uniq_ids (l : nat list) : int list = List.sort_uniq compare (List.map int_of_nat l)
 
+(* ---- M3: object graphs (copies) *)
+let rec gtree (x : sx) : gev =
+  match x with
+  | L [A "l"; i; d; t] -> GLeaf (ni i, ni d, ni t)
+  | L (A "s" :: i :: t :: kids) -> GNode (ni i, GSeq, ni t, List.map gtree kids)
+  | L (A "p" :: i :: t :: kids) -> GNode (ni i, GSim, ni t, List.map gtree kids)
+  | _ -> failwith "object graph expected"
+let rec max_id (e : gev) : int =
+  List.fold_left max 0 (List.map int_of_nat (gids e))
+
 let eval (x : sx) : sx =
   match x with
   | L [A "dur"; t] -> L [A "ok"; sz (dur (tree t))]
@@ -325,6 +335,16 @@ let eval (x : sx) : sx =
            | Ok e -> go e r (L [A "ok"; stree e] :: acc)
            | Err k -> List.rev (L [A "err"; A (err_name k)] :: acc)) in
       L (A "hist" :: go (tree t) ops [])
+  | L [A "copyop"; A op; t] ->
+      (* aliasing pattern of the result and the identities it shares with the source *)
+      let t = gtree t in
+      let n0 = nat_of_int (max_id t + 1) in
+      let r = (match op with
+               | "copy" -> fst (pcopy t (n0, []))
+               | _ -> fst (dcopy t n0)) in
+      let src = List.map int_of_nat (gids t) in
+      let shared = List.filter (fun i -> List.mem i src) (List.map int_of_nat (gids r)) in
+      L [A "ok"; L (A "pattern" :: List.map sn (pattern r)); L (A "shared" :: List.map (fun i -> A (string_of_int i)) shared)]
   | L [A "setp"; t; su; g; hp] ->
       let t = itree t in
       let h = set_parameter (bi su) (gfun g) t (heap_of hp None oz) in
